@@ -17,10 +17,10 @@ ID = "C03"
 TITLE = "descriptor before record, per stream"
 LEVEL = "exploration"
 RULE = (
-    "a fixed set of 23 record makers: an identifier-coincident pair (same name, same 32-bit hash, different fields), a "
+    "a fixed set of 27 record makers: an identifier-coincident pair (same name, same 32-bit hash, different fields), a "
     "same-name/different-fields pair (different hash), a holder whose inner type occurs only nested in a 'record' field, a "
     "holder with a record[] field whose elements are of the coincident types, a grouped record whose member types occur only "
-    "there, a grouped record with members of the same-name pair, a keyword-field type, a grouped record with the same group name and flat field list as another one but other member types, a type whose records can fail while being packed (good and failing variant: the failing write raises and the application carries on), a grouped record with a member of a coincident type, two grouped records of one group name whose members differ only in a field type, name twins ('/' versus '_'), a descriptor cloned under a new name by the deprecated constructor form, a field-less marker type (plain and nested), grouped records nested in a record / record[] field whose member types occur nowhere else, a type whose descriptor is a NEW equal object for every record, a brand-new type for every record.  Histories: EXHAUSTIVE over all write "
+    "there, a grouped record with members of the same-name pair, a keyword-field type, a grouped record with the same group name and flat field list as another one but other member types, a type whose records can fail while being packed (good and failing variant: the failing write raises and the application carries on), a grouped record with a member of a coincident type, two grouped records of one group name whose members differ only in a field type, name twins ('/' versus '_'), a descriptor cloned under a new name by the deprecated constructor form, a field-less marker type (plain and nested), grouped records nested in a record / record[] field whose member types occur nowhere else, a type whose descriptor is a NEW equal object for every record, a brand-new type for every record, two types of different names with the same 32-bit hash (flat and nested in one holder), a carrier whose dictlist DATA looks like the JSON adapter's definition of another type in use (its data slot is masked: only descriptors are judged there).  Histories: EXHAUSTIVE over all write "
     "sequences up to length 3 (quick) / 4 (thorough) over the makers, sampled one step longer, on a binary stream writer and on a JSON-lines writer, "
     "then random histories of length 20-200, 2-3 writers open at the same time with interleaved writes - each on its own output, and (binary) all "
     "appending to ONE shared output (histories with identifier-coincident types from different writers are skipped there: ambiguous by construction) - "
@@ -43,9 +43,9 @@ BUDGET_S = {"quick": 200, "thorough": 1200}
 ANCHORS = ["flow.record.packer:RecordPacker.register", "flow.record.packer:RecordPacker.pack_obj", "flow.record.stream:RecordStreamWriter.on_new_descriptor",
            "flow.record.jsonpacker:JsonRecordPacker.register", "flow.record.adapter.jsonfile:JsonfileWriter.packer_on_new_descriptor"]
 
-NMAKERS = 23
+NMAKERS = 27
 BAD_MAKERS = {11}  # writing this record is expected to RAISE (unpackable value); the application carries on
-NONTRIVIAL_ALONE = {4, 5, 6, 7, 9, 12, 19, 20}
+NONTRIVIAL_ALONE = {4, 5, 6, 7, 9, 12, 19, 20, 25}
 _COUNTER = itertools.count()
 
 
@@ -80,6 +80,10 @@ def makers():
     N1 = RecordDescriptor("nested/mem1", [("string", "p")])
     N2 = RecordDescriptor("nested/mem2", [("varint", "q")])
     N3 = RecordDescriptor("nested/mem3", [("string", "r")])
+    PX1 = RecordDescriptor("px/dir", [("string", "ectory")])
+    PX2 = RecordDescriptor("px/direc", [("string", "tory")])
+    assert PX1.identifier[1] == PX2.identifier[1] and PX1.name != PX2.name
+    CA = RecordDescriptor("carrier/dl", [("dictlist", "dl"), ("string", "s")])
 
     def mk(d, **kw):
         return d.recordType(_generated=g, **kw)
@@ -120,6 +124,13 @@ def makers():
         # bookkeeping keyed on object identity meets freed and re-used addresses.
         lambda i: mk(RecordDescriptor("fresh/eq", [("string", "a"), ("varint", "n")]), a="f%d" % i, n=i),
         lambda i: mk(RecordDescriptor("brand/n%d" % next(_COUNTER), [("varint", "n")]), n=i),
+        # 23 / 24: two types with DIFFERENT names and the SAME 32-bit hash (the hash input is name + field name + field type
+        # without separators: "px/dir" + "ectory" == "px/direc" + "tory"); 25: a holder with both of them nested
+        lambda i: mk(PX1, ectory="e%d" % i),
+        lambda i: mk(PX2, tory="t%d" % i),
+        lambda i: mk(L, subs=[mk(PX2, tory="lt%d" % i), mk(PX1, ectory="le%d" % i)], n=(i + 3) % 65536),
+        # 26: a record whose DATA (a dictlist element) looks like the JSON adapter's definition of the coincident type B
+        lambda i: mk(CA, dl=[{"_type": "recorddescriptor", "_data": ["t/x", [["string", "a"], ["string", "listb"]]]}, {"k": i}], s="carrier%d" % i),
     ]
 
 
@@ -188,7 +199,7 @@ def flat_obs(g):
 
 
 MAKER_NAMES = {0: "t/x", 1: "t/x", 2: "same/name", 3: "same/name", 4: "holder/rec", 5: "holder/list", 6: "grp/only", 7: "grp/same", 8: "kw/type",
-               9: "grp/only", 10: "bad/able", 12: "grp/co", 13: "grp/t", 14: "grp/t", 15: "tw/in/x", 16: "tw/in_x", 17: "clone/of", 19: "holder/rec", 20: "holder/list", 21: "fresh/eq"}
+               9: "grp/only", 10: "bad/able", 12: "grp/co", 13: "grp/t", 14: "grp/t", 15: "tw/in/x", 16: "tw/in_x", 17: "clone/of", 19: "holder/rec", 20: "holder/list", 21: "fresh/eq", 23: "px/dir", 24: "px/direc", 25: "holder/list", 26: "carrier/dl"}
 
 
 def created_with_ok(m, rec):
@@ -200,12 +211,20 @@ def created_with_ok(m, rec):
     return have == want
 
 
+def mask(o):
+    """The carrier's dictlist data is not C03's subject (the JSON reader turns definition-shaped data into an object):
+    blank that slot, keep everything else - above all which descriptor each record is decoded with."""
+    if isinstance(o, list) and o and o[0] == "rec" and o[1] == "carrier/dl":
+        return ["rec", o[1], o[2], [[k, ("<data>" if k == "dl" else v)] for k, v in o[3]]]
+    return o
+
+
 def expected_obs(rec, fmt):
     from flow.record import GroupedRecord
 
     if fmt == "json":
-        return observe.normalise(json_view(rec))
-    return observe.normalise(observe.obs(rec))
+        return mask(observe.normalise(json_view(rec)))
+    return mask(observe.normalise(observe.obs(rec)))
 
 
 def json_view(rec):
@@ -298,7 +317,7 @@ def check_bin(ctx, case, data, expected, registry, label):
             ctx.event("frames:DESC")
         else:
             ctx.event("frames:" + ev[0])
-    got = [observe.normalise(o) for o in dec.records]
+    got = [mask(observe.normalise(o)) for o in dec.records]
     if got != expected:
         ctx.violation(classify(case, "bin", ""), "%s: a record frame resolves to a descriptor other than the one it was written with" % label,
                       detail={"diff": observe.first_diff(expected, got), "history": case.get("h") or case.get("ops")})
@@ -306,7 +325,7 @@ def check_bin(ctx, case, data, expected, registry, label):
     try:
         with warnings.catch_warnings():
             warnings.simplefilter("ignore")
-            rd = [observe.normalise(observe.obs(r)) for r in RecordStreamReader(io.BytesIO(data))]
+            rd = [mask(observe.normalise(observe.obs(r))) for r in RecordStreamReader(io.BytesIO(data))]
     except Exception as e:  # noqa: BLE001
         ctx.violation(classify(case, "bin", ""), "%s: the reader fails on the stream: %s" % (label, type(e).__name__), detail={"exception": repr(e)[:300], "history": case.get("h") or case.get("ops")})
         return
@@ -379,7 +398,7 @@ def check_json(ctx, case, data, expected, written, registry, label, path):
     try:
         with warnings.catch_warnings():
             warnings.simplefilter("ignore")
-            rd = [observe.normalise(observe.obs(r)) for r in RecordReader(path)]
+            rd = [mask(observe.normalise(observe.obs(r))) for r in RecordReader(path)]
     except Exception as e:  # noqa: BLE001
         ctx.violation(classify(case, "json", ""), "%s: the reader fails on the JSON lines: %s" % (label, type(e).__name__), detail={"exception": repr(e)[:300], "history": case.get("h") or case.get("ops")})
         return
